@@ -86,6 +86,30 @@ def build_tasks(prop, tier, seed):
     return tasks
 
 
+def selftest_tasks(prop, seed, n):
+    """n tasks for the determinism self-test, spread over the families this property's check
+    uses (so that every seam and fault kind the check relies on is covered by the digest
+    comparison, not only conforming sessions)."""
+    by_fam = {}
+    for t in build_tasks(prop, 'quick', task_seed(seed, 'selftest', 0)):
+        by_fam.setdefault(t['type'], []).append(t)
+    out = []
+    i = 0
+    while len(out) < n and any(by_fam.values()):
+        for fam in sorted(by_fam):
+            if by_fam[fam] and len(out) < n:
+                t = dict(by_fam[fam].pop(0))
+                if t['type'] == 's3enum':
+                    t['type'] = 's3'       # an enumeration task is far too long for a self-test
+                if t['type'] == 's2enum':
+                    t['type'] = 's2'
+                if t['type'] == 's4enum':
+                    t['type'] = 's4'
+                out.append({'type': 'digest', 'inner': t})
+        i += 1
+    return out
+
+
 def worker_init():
     from sim import seams, parserec
     mods = seams.install()
@@ -115,8 +139,12 @@ def run_task(task):
         return sweep.run_task(task)
     if t == 'digest':
         from scenarios import s1
-        r = s1.run_group(task['inner'])
-        return {'digests': r['digests']}
+        s1.WANT_RUN_DIGESTS[0] = True
+        try:
+            r = run_task(task['inner'])
+        finally:
+            s1.WANT_RUN_DIGESTS[0] = False
+        return {'digests': r['stats'].get('run_digests') or []}
     if t == 'minimise':
         return minimise_task(task)
     if t == 'replay':
